@@ -285,6 +285,8 @@ theorem Pres.unorphanQS (hP : Pres P S A Q) (s : State) (b : Blk) (h : QS S Q s)
 theorem Pres.reorgTo (hP : Pres P S A Q) (s : State) (b : Blk) (f : Option Blk) (h : QS S Q s) :
     QS S Q (reorgTo P s b f).1 := by
   unfold C27.reorgTo
+  split
+  · exact h
   have h1 : QS S Q (resetFin s f) :=
     hP.frameQS h (aux_resetFin s f).1 (fun _ ho => Or.inl (by rw [(aux_resetFin s f).2] at ho; exact ho))
   have h2 := hP.reorganize (resetFin s f) (getReorganizeNodes (resetFin s f) b f).1
